@@ -8,7 +8,7 @@ from vf.ref.conditions import selector_names
 from vf.target.backend import PRECEDENCES
 
 DET_NAMES = ["sel", "sel1", "sel2", "filter", "filter_main", "kw", "notepad", "or_x", "x1", "all-in", "selection_a"]
-SEL_PATTERNS = ["them", "*", "sel*", "*1", "filter*", "s*", "*x*", "sel?"[:3] + "*", "*_main", "selection_*"]
+SEL_PATTERNS = ["them", "*", "sel*", "*1", "filter*", "s*", "*x*", "sel?"[:3] + "*", "*_main", "selection_*", "s*l*", "*e*e*", "f*_*", "*l*r"]
 
 BARE_FIELDS = ["f", "g", "Image", "cmd_line", "x.y", "h2"]
 QUOTED_FIELDS = ["f", "g h", "a-b", "x.y", "q`t", "b\\s", "fie=ld", "(p)", "c,d", "NOT", "é"]
